@@ -321,7 +321,11 @@ def rann(a):
 
 
 def run_case(case):
-    ctx = U.real_ctx(case['ctx'])
+    # a context name may stand for the generated class K itself (['user', [5]]): it is bound once the class exists
+    k_names = [U.ctx_name(n) for n, cl in case['ctx'] if cl == ['user', [5]]]
+    ctx = U.real_ctx([[n, cl] for n, cl in case['ctx'] if cl != ['user', [5]]])
+    for n in k_names:
+        globals().pop(n, None)
     globals().update(ctx)
     r = Run(case)
     extra = dict(ctx)
@@ -381,6 +385,10 @@ def run_case(case):
     style = case['style']
     K = getattr(mod, 'K', None)
     Sub = getattr(mod, 'Sub', None)
+    for n in k_names:
+        if K is not None:
+            globals()[n] = K
+            setattr(mod, n, K)
     name = case['name']
     if style in ('class_deco', 'property'):
         # what for_all_methods will hand to the decorator: getattr(cls, attr) / prop.fset
